@@ -116,7 +116,7 @@ func (w *Worker) noteStub(name string)       { w.stubsHit[name] = true }
 var outcomeLog = os.Getenv("VERIF_OUTCOMES") != ""
 
 type Driver struct {
-	dporNodes map[string]*dporNode
+	dporNodes map[nodeID]*dporNode
 	outcomes map[string]int
 	nativeInputs    map[string][]map[string]string // entry -> sampled input assignments of discharged paths
 	nativeValidated int
